@@ -64,6 +64,11 @@ def probeWithSend (sent : Sent) (c : Cfg) (score : Nat) (evs : List Ev) (expecte
     let r := probeOutcome c score evs expectedNacks tcpOk
     if r.1 then r else (false, 0)
 
+/-- the `Ping` API: one direct ping whose pending record lives for a probe interval while the caller waits
+for the probe timeout: answered iff an acknowledgement with its own sequence number arrives before both -/
+def pingAnswered (interval timeout : Nat) (evs : List Ev) : Bool :=
+  evs.any fun e => e.kind == .ack && e.mine && e.t < min interval timeout
+
 /-- `awareness.ApplyDelta` -/
 def applyDelta (max : Nat) (score : Nat) (delta : Int) : Nat :=
   let s : Int := (score : Int) + delta
